@@ -565,10 +565,17 @@ func (b *PebbleBatch) KeyRangeScan(lowerBound, upperBound string) (KeyIterator, 
 }
 
 func (b *PebbleBatch) RangeScan(lowerBound, upperBound string) (KeyValueIterator, error) {
-	pbit, err := b.b.NewIter(&pebble.IterOptions{
-		LowerBound: []byte(lowerBound),
-		UpperBound: []byte(upperBound),
-	})
+	// An empty bound means "unbounded", like in Pebble.RangeScan. Passing an empty slice is not the
+	// same thing: Pebble reads it as no bound or as a real (empty) bound depending on whether the
+	// iterator it hands out is a recycled one
+	opts := &pebble.IterOptions{}
+	if lowerBound != "" {
+		opts.LowerBound = []byte(lowerBound)
+	}
+	if upperBound != "" {
+		opts.UpperBound = []byte(upperBound)
+	}
+	pbit, err := b.b.NewIter(opts)
 	if err != nil {
 		return nil, err
 	}
